@@ -222,6 +222,32 @@ def rule_m1(chk: Check, ix: Index):
                 "M1-must-append", "consume_with_macro_params:join", g.where, "captured lines must be joined in order, unchanged")
 
 
+def rule_m6(chk: Check, ir, rule_id: str = "M6-macro-callee"):
+    """Sibling agreement: whatever can be called with `(` can be macro-called with `!(` — the callee of the call-macro start is the
+    same grammar rule as the callee of an ordinary call in `primary`."""
+    from ..ir import Lit, Ref
+    call_callee = None
+    prim = ir.rules.get("primary")
+    if prim is None:
+        raise AnalysisError("rule primary vanished")
+    for a in prim.alts:
+        its = [ni.item for ni in a.items]
+        if len(its) >= 2 and isinstance(its[0], Ref) and isinstance(its[1], Lit) and its[1].value.strip("'\"") == "(":
+            call_callee = its[0].name
+    macro = None
+    for name, r in ir.rules.items():
+        for a in r.alts:
+            its = [ni.item for ni in a.items]
+            if len(its) >= 2 and isinstance(its[0], Ref) and isinstance(its[1], Lit) and its[1].value.strip("'\"") == "!(":
+                macro = (name, its[0].name, a)
+    chk.count(rule_id)
+    if call_callee is None or macro is None:
+        raise AnalysisError("M6: the call alternative of `primary` or the call-macro start was not found")
+    chk.require(macro[1] == call_callee, rule_id, macro[0], str(macro[2].pos),
+                f"an ordinary call applies to any `{call_callee}` but a macro call only to a `{macro[1]}`: `registry['k']!(...)`, "
+                f"`get()!(...)` or `(f)!(...)` are refused although the same callee can be called")
+
+
 def rule_m2(chk: Check, ix: Index):
     f = ix.get("Tokenizer.__init__")
     table = None
@@ -404,6 +430,7 @@ def run(chk: Check):
     tr = typed.run()
     rule_m1(chk, ix)
     rule_m2(chk, ix)
+    rule_m6(chk, ir)
     macros.rule_m3(chk, ix, ir)
     rule_m4(chk, ix, tr.interp)
     macros.rule_m5(chk, ix)
